@@ -320,6 +320,30 @@ def run(m: Model, r: Report, tier: str) -> None:
     opt = params.class_attrs.get("optional_services") if params else None
     r.check(opt is not None and "set(UDSIsoServices)" in ast.unparse(opt), "R5", f"{SRV}.RandomUDSServer.RandomnessParameters#optional_services",
             "default optional services: a set difference of IntEnum members (int hashes, hash-seed independent)", loc=params.loc if params else "")
+    # the same for the model parameters: no validator / default / command code turns a set into an ordered collection unless its elements are ints
+    # (IntEnum members included): list(set(<strings from the command line>)) is ordered by the process' hash seed
+    def _ordered_from_set(tree: ast.AST):
+        for c_ in ast.walk(tree):
+            if isinstance(c_, ast.Call) and isinstance(c_.func, ast.Name) and c_.func.id in ("list", "tuple") and len(c_.args) == 1:
+                inner = c_.args[0]
+                sets_ = [x for x in ast.walk(inner) if isinstance(x, ast.Call) and isinstance(x.func, ast.Name) and x.func.id in ("set", "frozenset")]
+                if isinstance(inner, (ast.Set, ast.SetComp)) or (sets_ and (inner in sets_ or (isinstance(inner, ast.BinOp) and isinstance(inner.op, (ast.Sub, ast.BitOr, ast.BitAnd, ast.BitXor))))):
+                    yield c_, sets_
+    n_sets = 0
+    vecu_mod = m.module("gallia.commands.script.vecu")
+    for where_, tree_ in ((f"{SRV}.RandomUDSServer.RandomnessParameters", params.node if params else None), ("gallia.commands.script.vecu", vecu_mod.tree)):
+        if tree_ is None:
+            continue
+        for c_, sets_ in _ordered_from_set(tree_):
+            n_sets += 1
+            int_like = all(x.args and all(isinstance(y, (ast.Name, ast.Attribute, ast.BinOp, ast.List, ast.Call)) for y in [x.args[0]]) and
+                           all(nm.id in ("UDSIsoServices", "mandatory_services", "set", "list", "range", "int") or nm.id[:1].isupper()
+                               for nm in ast.walk(x.args[0]) if isinstance(nm, ast.Name)) for x in sets_) and bool(sets_)
+            r.check(int_like, "R5", f"{where_}#ordered-from-set@{c_.lineno - (tree_.lineno if hasattr(tree_, 'lineno') else 0)}",
+                    f"`{ast.unparse(c_)[:70]}` turns a set into a list: unless the elements are ints / IntEnum members the order depends on PYTHONHASHSEED, and the model is "
+                    "drawn by iterating these lists", loc=f"src/gallia/{'services/uds/server.py' if 'server' in where_ else 'commands/script/vecu.py'}:{c_.lineno}")
+    if n_sets < 1:
+        raise AnalysisError("the set-difference default of RandomnessParameters.optional_services was not found")
     if len(iterated) < 1:
         raise AnalysisError(f"{rz.qualname}: expected loops over session sets")
 
